@@ -4,7 +4,10 @@ to a length, seeded longer ones); direct oracle: a by-name reference of the norm
 intermediate stream iterated before and after later steps, twice."""
 import itertools
 import copy
+import os
 import random
+import shutil
+import tempfile
 
 from common import Report, clist, coq_eval_mismatches, cz, proof_phase, use_repo
 
@@ -56,7 +59,21 @@ def main():
     PYOP = {">": operator.gt, ">=": operator.ge, "<": operator.lt, "<=": operator.le, "=": operator.eq, "!=": operator.ne}
     direct = []
 
-    def make(hd, rows):
+    csv_dir = tempfile.mkdtemp(prefix="verif_c17_")
+    csv_n = [0]
+
+    def make(hd, rows, csv_backed=False):
+        if csv_backed and rows:
+            # the same table as a file: the stream is the CSV handler's CSVData (a subclass with its own copy method)
+            from pydap.handlers.csv import CSVHandler
+            csv_n[0] += 1
+            path = os.path.join(csv_dir, "t%d.csv" % csv_n[0])
+            with open(path, "w") as f:
+                f.write(",".join('"%s"' % c for c in hd) + "\n")
+                for row in rows:
+                    f.write(",".join(str(int(x)) for x in row) + "\n")
+            seq = CSVHandler(path).dataset["sequence"]
+            return seq, seq.data
         seq = SequenceType("q")
         for c in hd:
             seq[c] = BaseType(c)
@@ -132,7 +149,7 @@ def main():
         if k == "filter":
             return ("filter", rng.choice(hd), rng.choice(list(OPS)), rng.choice([rng.randint(0, 30), rng.choice(hd)]))
         if k == "slice":
-            return ("slice", slice(rng.choice([None, 0, 1, 2]), rng.choice([None, 1, 2, 3, 9]), rng.choice([None, 1, 2])))
+            return ("slice", slice(rng.choice([None, 0, 1, 2]), rng.choice([None, 0, 1, 2, 3, 9]), rng.choice([None, 1, 2])))
         return ("int", rng.randint(0, 3))
 
     alphabet = [("cols", ("c", "a")), ("cols", ("b",)), ("col", "a"), ("col", "c"), ("filter", "b", ">", 15),
@@ -158,7 +175,7 @@ def main():
     kinds = {}
     for ch in chains:
         rows = tables[rng.randrange(len(tables))] if len(ch) > 2 else tables[0]
-        seq, d0 = make(hd, rows)
+        seq, d0 = make(hd, rows, csv_backed=(len(ch) > 2 and rng.random() < 0.3))
         streams = [(d0, False)]
         d, single, ok, cur = d0, False, True, list(hd)
         visible_ok = True
@@ -474,6 +491,7 @@ def main():
         "reference written in the harness, not modelled in Gallina",
         "itertools.islice on non-negative bounds coincides with list slicing (np_indices)",
     ]
+    shutil.rmtree(csv_dir, ignore_errors=True)
     r.finish()
 
 
